@@ -228,10 +228,10 @@ def _txinfo(ctx, R, T):
     b = {p: ("p", p) for p in init.params[1:]}
     obj = ("new", cls.qualname, tuple(sorted(b.items())))
     loc = init.loc()
-    R.check(T.attr(obj, "send_buffer") == ("call", "builtins.bytearray", (("p", "maxdata"),), ()), "BUF-send", cls.qualname + "|buffer", "send buffer has exactly maxdata bytes",
-            "send buffer is %s, expected bytearray(maxdata)" % show(T.attr(obj, "send_buffer")), loc)
-    R.check(T.attr(obj, "send_idx") == ("c", 0), "BUF-send", cls.qualname + "|idx", "send cursor starts at 0", None, loc)
-    R.check(T.attr(obj, "_maxdata") == ("p", "maxdata"), "BUF-send", cls.qualname + "|maxdata", "limit = the maxdata given", "_maxdata is %s" % show(T.attr(obj, "_maxdata")), loc)
+    R.check(T.initial_attr(obj, "send_buffer") == ("call", "builtins.bytearray", (("p", "maxdata"),), ()), "BUF-send", cls.qualname + "|buffer", "send buffer has exactly maxdata bytes",
+            "send buffer is %s, expected bytearray(maxdata)" % show(T.initial_attr(obj, "send_buffer")), loc)
+    R.check(T.initial_attr(obj, "send_idx") == ("c", 0), "BUF-send", cls.qualname + "|idx", "send cursor starts at 0", None, loc)
+    R.check(T.initial_attr(obj, "_maxdata") == ("p", "maxdata"), "BUF-send", cls.qualname + "|maxdata", "limit = the maxdata given", "_maxdata is %s" % show(T.initial_attr(obj, "_maxdata")), loc)
     # predicate: send_idx + recv_message_size + data_len < (or <=) _maxdata
     ca = cls.methods.get("can_add_to_send_buffer")
     if ca is None:
@@ -239,11 +239,14 @@ def _txinfo(ctx, R, T):
         return
     selft = ("p", "self:" + cls.qualname)
     rt = T.inline_return(ca, {ca.params[0]: ("p", "SELF"), ca.params[1]: ("p", "N")}, 1)
-    ok = rt[0] == "cmp" and len(rt) == 4 and rt[2] in (("c", "Lt"), ("c", "LtE")) and rt[3] == ("attr", ("p", "SELF"), "_maxdata")
+    # the predicate compares a sum that grows with the cursor and with its argument against the limit; the exact sum (cursor + record
+    # header + payload) is checked where the predicate is applied to its actual argument (room-or-flush in _filesync_send)
+    from ..terms import linear
+    ok = rt[0] == "cmp" and len(rt) == 4 and rt[2] in (("c", "Lt"), ("c", "LtE"))
     if ok:
-        summ = _flatten_sum(rt[1])
-        ok = sorted(summ, key=crepr) == sorted([("attr", ("p", "SELF"), "send_idx"), ("attr", ("p", "SELF"), "recv_message_size"), ("p", "N")], key=crepr)
-    R.check(ok, "BUF-send", ca.qualname, "room predicate: send_idx + record_size + n < maxdata", "the room predicate is %s; expected send_idx + recv_message_size + data_len < _maxdata" % show(rt), ca.loc())
+        lf = linear(("op", "-", rt[3], rt[1]))          # limit - sum
+        ok = lf is not None and lf[0].get(("attr", ("p", "SELF"), "_maxdata")) == 1 and lf[0].get(("attr", ("p", "SELF"), "send_idx")) == -1 and lf[0].get(("p", "N")) == -1
+    R.check(ok, "BUF-send", ca.qualname, "room predicate: send_idx + ... + n < maxdata", "the room predicate is %s; expected (send_idx + ... + data_len) < _maxdata" % show(rt), ca.loc())
 
 
 def _flatten_sum(t):
@@ -337,21 +340,21 @@ def _send_buffer(ctx, R, roles, T):
             return None
         a, op, b = unver(t[1]), t[2][1], unver(t[3])
         lim = ("attr", infot, "_maxdata")
-        if op in ("Lt", "LtE") and b == lim:
-            summ = a
-        elif op in ("Gt", "GtE") and a == lim:
-            summ = b
-        elif op in ("GtE", "Gt") and b == lim:
-            summ, pol = a, not pol          # sum >= limit: no room
-        elif op in ("LtE", "Lt") and a == lim:
-            summ, pol = b, not pol
-        else:
+        if want is None or op not in ("Lt", "LtE", "Gt", "GtE"):
             return None
-        lf = linear(summ)
-        lf = ({unver(k): v for k, v in lf[0].items()}, lf[1])
-        if want is None or lf != want:
+        # slack = (greater side) - (smaller side) of the comparison; room means  limit - (cursor + header + payload) > 0 (or >= 0)
+        d = linear(("op", "-", b, a)) if op in ("Lt", "LtE") else linear(("op", "-", a, b))
+        if d is None:
             return None
-        return "true" if pol else "false"
+        d = ({unver(k): v for k, v in d[0].items()}, d[1])
+        slack = ({k: -v for k, v in want[0].items()}, -want[1])
+        slack[0][lim] = slack[0].get(lim, 0) + 1
+        neg = ({k: -v for k, v in slack[0].items()}, -slack[1])
+        if d == slack:
+            return "true" if pol else "false"
+        if d == neg:
+            return "false" if pol else "true"
+        return None
     tests = [(tn, room_edge(tn)) for tn in g.live_nodes() if tn.kind == "test"]
     tests = [(tn, lab) for tn, lab in tests if lab is not None]
     if len(tests) == 1 and g.dominates([tests[0][0]], sn):
